@@ -157,22 +157,39 @@ pub fn parse_index(index: &[u8]) -> Vec<IRec> {
 
 /// `T:db,de=p|p;…` for every leaf-shaped record with an in-range, non-empty data range
 pub fn leaf_table(recs: &[IRec], data: &[u8]) -> (String, usize) {
-    let mut seen = std::collections::BTreeSet::new();
+    let mut count = std::collections::BTreeMap::new();
     let mut items = vec![];
+    // `total` = what a walk entering every leaf-shaped record once can yield at most (two leaf
+    // records may share a data range: each of them yields it)
     let mut total = 0;
     for r in recs {
-        if r.s == 0 && r.b > 0 && r.a + r.b <= data.len() as u64 && seen.insert((r.a, r.a + r.b)) {
-            let ps = decode_phrases(&data[r.a as usize..(r.a + r.b) as usize]);
-            total += ps.len();
-            items.push(format!(
-                "{},{}={}",
-                r.a,
-                r.a + r.b,
-                ps.iter().map(phrase_tok).collect::<Vec<_>>().join("|")
-            ));
+        if r.s == 0 && r.b > 0 && r.a + r.b <= data.len() as u64 {
+            let key = (r.a, r.a + r.b);
+            if !count.contains_key(&key) {
+                let ps = decode_phrases(&data[r.a as usize..(r.a + r.b) as usize]);
+                count.insert(key, ps.len());
+                items.push(format!(
+                    "{},{}={}",
+                    r.a,
+                    r.a + r.b,
+                    ps.iter().map(phrase_tok).collect::<Vec<_>>().join("|")
+                ));
+            }
+            total += count[&key];
         }
     }
     (format!("T:{}", items.join(";")), total)
+}
+
+/// finding class F40: the file stores a phrase whose frequency is within reach of `u32::MAX`
+/// (the engine itself never stores more than MAX_USER_FREQ = 99 999 999)
+pub fn huge_stored_freq(recs: &[IRec], data: &[u8]) -> bool {
+    recs.iter().any(|r| {
+        r.s == 0
+            && r.b > 0
+            && r.a + r.b <= data.len() as u64
+            && decode_phrases(&data[r.a as usize..(r.a + r.b) as usize]).iter().any(|p| p.freq() >= 3_000_000_000)
+    })
 }
 
 /// record is used as a node by the traversals: the root, or a non-zero syllable
